@@ -5,6 +5,8 @@
 #ifdef YGM_VERIF
 #include <cstddef>
 #include <cstdint>
+#include <type_traits>
+#include <typeinfo>
 namespace ygm::verif {
 struct hooks_t {
   // around the execution of a received message's lambda
@@ -14,8 +16,28 @@ struct hooks_t {
   // (-1 for a broadcast leg), next_hop the buffer it went into
   void (*originate)(void *comm, int dest, int next_hop, size_t header_bytes,
                     size_t body_bytes) = nullptr;
+  // a disjoint_set visit runs on the owner of item: phase 0 before, 1 after
+  // the visitor; (rank, parent) is the item's entry at that moment
+  void (*ds_visit)(int phase, const char *visitor, long item, long rank,
+                   long parent, const long *args, int nargs) = nullptr;
 };
 inline hooks_t hooks;
+template <typename T>
+inline long to_long(const T &x) {
+  if constexpr (std::is_integral_v<T> || std::is_enum_v<T>)
+    return (long)x;
+  else
+    return 0;
+}
+template <typename Info, typename... Args>
+inline void ds_visit(int phase, const char *visitor, const Info &info,
+                     const Args &...args) {
+  if (!hooks.ds_visit) return;
+  const long a[sizeof...(Args) + 1] = {to_long(args)...};
+  hooks.ds_visit(phase, visitor, to_long(info.first),
+                 to_long(info.second.get_rank()),
+                 to_long(info.second.get_parent()), a, (int)sizeof...(Args));
+}
 }  // namespace ygm::verif
 #define YGM_VERIF_EXEC_BEGIN(lid, ar)                     \
   do {                                                    \
@@ -32,7 +54,10 @@ inline hooks_t hooks;
     if (ygm::verif::hooks.originate)                              \
       ygm::verif::hooks.originate(this, dest, hop, hdr, body);    \
   } while (0)
+#define YGM_VERIF_DS_VISIT(phase, Visitor, info, ...) \
+  ygm::verif::ds_visit(phase, typeid(Visitor).name(), info, __VA_ARGS__)
 #else
+#define YGM_VERIF_DS_VISIT(phase, Visitor, info, ...)
 #define YGM_VERIF_EXEC_BEGIN(lid, ar)
 #define YGM_VERIF_EXEC_END(lid, ar)
 #define YGM_VERIF_ORIGINATE(dest, hop, hdr, body)
